@@ -180,6 +180,13 @@ func tsaBehaviours() []tsaBehaviour {
 		})
 	}
 	// a valid chain with an authority clock that is off does not invalidate the token (the library does not compare genTime with its own clock)
+	// the caller gives up: its context is cancelled while the authority works / its deadline has passed (the body wires the context)
+	out = append(out, tsaBehaviour{name: "caller-cancels-while-the-authority-works", reply: func(w *tsaWorld, req *tspclient.Request, tokenOut *[]byte) netsim.Answer {
+		return netsim.Answer{Err: context.Canceled}
+	}})
+	out = append(out, tsaBehaviour{name: "caller-deadline-already-passed", reply: func(w *tsaWorld, req *tspclient.Request, tokenOut *[]byte) netsim.Answer {
+		return netsim.Answer{Err: context.DeadlineExceeded}
+	}})
 	out = append(out, tsaBehaviour{name: "garbage-body", reply: func(w *tsaWorld, req *tspclient.Request, tokenOut *[]byte) netsim.Answer {
 		return tsaReplyOK([]byte("not a timestamp response"))
 	}})
@@ -310,6 +317,7 @@ func c15Body(c *mc.Ctx, media, scheme, keyName string) {
 	}
 	var tsaReqs []*tspclient.Request
 	var issued []byte
+	var cancelReq context.CancelFunc
 	tr := &netsim.Transport{}
 	tr.Handler = func(r *netsim.Request, raw *http.Request) netsim.Answer {
 		var req tspclient.Request
@@ -318,6 +326,9 @@ func c15Body(c *mc.Ctx, media, scheme, keyName string) {
 			return netsim.Answer{Status: 400}
 		}
 		tsaReqs = append(tsaReqs, &req)
+		if b.name == "caller-cancels-while-the-authority-works" && cancelReq != nil {
+			cancelReq()
+		}
 		return b.reply(w, &req, &issued)
 	}
 	chain := chainFor(keyName)
@@ -390,6 +401,17 @@ func c15Body(c *mc.Ctx, media, scheme, keyName string) {
 	if derive {
 		// the request handed to Sign is a copy made by WithContext: every field must survive the copy
 		req = req.WithContext(context.WithValue(context.Background(), callerKey{}, 1))
+	}
+	switch b.name {
+	case "caller-cancels-while-the-authority-works":
+		ctx, cancel := context.WithCancel(context.Background())
+		cancelReq = cancel
+		defer cancel()
+		req = req.WithContext(ctx)
+	case "caller-deadline-already-passed":
+		ctx, cancel := context.WithDeadline(context.Background(), time.Now().Add(-time.Hour))
+		defer cancel()
+		req = req.WithContext(ctx)
 	}
 	env, serr, pan := doSign(media, req)
 	c.Tracef("%s %s key=%s timestamper=%v behaviour=%s validator-mode=%d vector=%v -> err=%v bytes=%d", media, scheme, keyName, useTS, b.name, vmode, vec, serr, len(env))
